@@ -3,7 +3,7 @@
 for id in "$@"; do
   for p in /verif/mutants/$id/*.diff /verif/seeded/$id-*/patch.diff; do
     [ -f "$p" ] || continue
-    out=$(/verif/tools/try_patch.sh "$p" $id 2>&1)
+    out=$(FJVERIF_SHRINK_CAP_S=3 /verif/tools/try_patch.sh "$p" $id 2>&1)
     nv=$(echo "$out" | grep -c '^VIOLATION'); he=$(echo "$out" | grep -c 'HARNESS-ERROR\|repo dirty\|does not apply')
     echo "$id $(echo $p | sed 's#/verif/##') violations=$nv harness=$he"
   done
